@@ -37,6 +37,9 @@ func (o respOp) String() string {
 	case "abortstatus":
 		return fmt.Sprintf("AbortWithStatus(%d)", o.Code)
 	case "flush":
+		if o.Data == "rc" {
+			return "http.NewResponseController(c.Resp).Flush()"
+		}
 		return "Flush"
 	case "error":
 		return fmt.Sprintf("http.Error(%q,%d)", o.Data, o.Code)
@@ -90,6 +93,11 @@ func (o respOp) apply(c *rux.Context) {
 					recOf(c).Ev("flush-panicked")
 				}
 			}()
+			if o.Data == "rc" {
+				// the standard library's way to flush "whatever writer this is"
+				_ = http.NewResponseController(c.Resp).Flush()
+				return
+			}
 			c.Resp.(http.Flusher).Flush()
 		}()
 	case "abortstatus":
@@ -440,7 +448,7 @@ func runC08(e *Env) {
 
 	e.RunCases("random", e.N(30000, 12000000), 0, func(t *T) {
 		r := t.R
-		codes := []int{-1, 0, 100, 101, 200, 201, 204, 301, 404, 500, 599}
+		codes := []int{-1, 0, 100, 101, 200, 201, 204, 301, 404, 500, 599, 499, 520}
 		nh := 1 + r.IntN(4)
 		p := c08Prog{Method: pick(r, []string{"GET", "GET", "POST"})}
 		p.NGlobal = r.IntN(nh)
@@ -463,6 +471,9 @@ func runC08(e *Env) {
 					o = respOp{Kind: "write", Data: pick(r, []string{"", "x", "hello", "ab"})}
 				case x < 14:
 					o = respOp{Kind: "flush"}
+					if chance(r, 1, 3) {
+						o.Data = "rc"
+					}
 				case x < 15:
 					o = respOp{Kind: "error", Code: pick(r, []int{400, 404, 500}), Data: "err"}
 				case x < 16:
